@@ -280,7 +280,7 @@ func TestC01(t *testing.T) {
 		cfg := model.DefaultCfg(mode)
 		cfg.PPost = 0
 		cfg.PCatchVary = 0.4 // caught failures also in otherwise valid inputs: what a catch hides must stay hidden from the node's siblings only
-		cfg.PPre = 0.06 // Preprocess wrappers: the wrapped schema's constraints hold for what the function returned
+		cfg.PPre = 0.06      // Preprocess wrappers: the wrapped schema's constraints hold for what the function returned
 		cfg.PCatch, cfg.PVary, cfg.PAbsent, cfg.PJunk, cfg.PTestSat, cfg.PClean, cfg.PLight = 0.3, 0.2, 0.1, 0.04, 0.95, 0.45, 0.5
 		if h.Thorough() {
 			cfg.MaxDepth, cfg.MaxFields, cfg.MaxElems, cfg.ManyFields = 4, 6, 6, true
